@@ -129,3 +129,334 @@ def independent_grid(rs, skip_brute, skip_case, folder, n_markov_levels):
         for vec in itertools.product(*dims):
             out[tuple(zip(names, vec))] += 1
     return out
+
+
+# ------------------------------------------------------------------ histories on ONE ruleset directory
+#
+# A ruleset directory has a life: it is trained, guessed from, edited in place (edit_rules.py rewrites Grammar/grammar.txt
+# and keeps the uuid; a hand edit of a probability file keeps it too), guessed from again under other flags, trained again.
+# Every property of the loader / the guesser is about the files AS THEY ARE when the load happens, whatever was loaded from
+# that directory before (in this process or in an earlier one).  `load_grammar` above writes every ruleset into a fresh
+# directory and loads it once; the helpers below replay a history on one directory.
+
+def file_groups(rs, name, skip_case=False):
+    """The groups the ruleset FILES define for variable [name]: consecutive lines of equal probability form one group
+    (C<n> under all_lower: the single all-lower mask with probability 1.0).  [(prob, [values])] or None (no such file)."""
+    if name[0] == "C" and skip_case:
+        return [(1.0, ["L" * int(name[1:])])]
+    lines = rs["files"].get(name)
+    if lines is None:
+        return None
+    out = []
+    for v, p in lines:
+        p = float(p)
+        if out and out[-1][0] == p:
+            out[-1][1].append(v)
+        else:
+            out.append((p, [v]))
+    return out
+
+
+def file_bases(rs, skip_brute, folder):
+    """The base structures the ruleset FILES define under the flags: per line of <folder>/grammar.txt its probability (divided
+    by 1 - P(first M line) under skip_brute, the Markov lines dropped) and its labels with a C<n> behind every A<n>.
+    None when 1 - P(M) is 0 (nothing to rescale to)."""
+    import re
+    lines = rs["grammar"] if folder == "Grammar" else rs["prince"]
+    tot = 1.0
+    if skip_brute:
+        for s, p in lines:
+            if s == "M":
+                tot = tot - float(p)
+                break
+    if tot == 0.0:
+        return None
+    out = []
+    for s, p in lines:
+        names = []
+        for tok in re.findall(r"[A-Z][0-9]*", s):
+            names.append(tok)
+            if tok[0] == "A":
+                names.append("C" + tok[1:])
+        if skip_brute and "M" in names:
+            continue
+        out.append((float(p) / tot, names))
+    return out
+
+
+def _paths_of(rs):
+    return set(os.path.join(rulesets.SECTION[k[0]][1], k[1:] + ".txt") for k in rs["files"])
+
+
+class History:
+    """One rule directory <scratch>/Rules/<name> (or <rules_dir>/<name>) on which steps are applied one after the other.
+    A step is a dict:
+        ruleset     description to (re)write INTO THE DIRECTORY (None/absent: leave the files as they are); like edit_rules or a
+                    hand edit the rewrite only touches the files of the description and removes terminal files an EARLIER STEP
+                    WROTE that are gone from it - anything else found in the directory (e.g. a file the code under test left there)
+                    survives; the uuid is whatever the description says (kept by an edit, new after a re-training)
+        edit_rules  optional config of the real edit_rules.edit_rules() run on the directory after the rewrite
+                    ({'min_length','max_length','terminal_set','regex'}); grammar.txt is then read back into the description
+        skip_brute, skip_case, folder   flags of the load
+    `current` is the description of the files as they are NOW."""
+
+    def __init__(self, scratch, rules_dir=None, name=None):
+        _counter[0] += 1
+        self.rules_dir = rules_dir or os.path.join(scratch, "Rules")
+        self.name = name or "H%d" % _counter[0]
+        self.dir = os.path.join(self.rules_dir, self.name)
+        self.written = set()
+        self.current = None
+
+    def write(self, step):
+        rs = step.get("ruleset")
+        if rs is not None:
+            rulesets.write_ruleset(rs, self.dir)
+            now = _paths_of(rs)
+            for rel in self.written - now:
+                try:
+                    os.unlink(os.path.join(self.dir, rel))
+                except OSError:
+                    pass
+            self.written = now
+            self.current = rulesets.to_json(rs)
+        cfg = step.get("edit_rules")
+        if cfg:
+            import importlib
+            er = importlib.import_module("edit_rules")
+            conf = {"rules_dir": self.rules_dir, "rule": self.name, "copy": None,
+                    "min_length": int(cfg.get("min_length") or 0), "max_length": int(cfg.get("max_length") or 0),
+                    "terminal_set": cfg.get("terminal_set") or False}
+            if cfg.get("regex"):
+                conf["regex"] = list(cfg["regex"])
+            common.quiet_call(er.edit_rules, conf)
+            got = []
+            with open(os.path.join(self.dir, "Grammar", "grammar.txt")) as f:
+                for line in f:
+                    if line.strip():
+                        s, p = line.rstrip("\r\n").split("\t")
+                        got.append([s, float(p)])
+            self.current["grammar"] = got
+        return self.current
+
+    def load(self, step):
+        """the real PcfgGrammar, in this process, from the directory as it is now"""
+        from lib_guesser.pcfg_grammar import PcfgGrammar
+        (g, so, se) = common.quiet_call(PcfgGrammar, self.name, self.dir, "4.7", None, bool(step.get("skip_brute")),
+                                        bool(step.get("skip_case")), False, step.get("folder", "Grammar"))
+        g._verif_dir = self.dir
+        return g
+
+    def load_child(self, step, timeout=120):
+        """the same load in a FRESH python process: (base list, tables) as JSON-able lists, or None if the load failed there"""
+        import json
+        import subprocess
+        prog = ("import sys, json, io, contextlib\n"
+                "from lib_guesser.pcfg_grammar import PcfgGrammar\n"
+                "a = json.loads(sys.argv[1])\n"
+                "with contextlib.redirect_stdout(io.StringIO()), contextlib.redirect_stderr(io.StringIO()):\n"
+                "    g = PcfgGrammar(a[0], a[1], '4.7', None, a[2], a[3], False, a[4])\n"
+                "print('@@' + json.dumps([[[b['prob'].hex(), b['replacements']] for b in g.base],\n"
+                "      {k: [[x['prob'].hex(), x['values']] for x in v] for k, v in g.grammar.items()}]))\n")
+        arg = json.dumps([self.name, self.dir, bool(step.get("skip_brute")), bool(step.get("skip_case")), step.get("folder", "Grammar")])
+        p = subprocess.run([common.PY, "-c", prog, arg], env=common.subenv(), cwd=common.REPO, stdin=subprocess.DEVNULL,
+                           stdout=subprocess.PIPE, stderr=subprocess.PIPE, timeout=timeout)
+        for line in p.stdout.decode("utf-8", "replace").split("\n"):
+            if line.startswith("@@"):
+                return json.loads(line[2:])
+        return None
+
+
+def tables_of(g):
+    """what load_child returns, for a grammar loaded in this process"""
+    return [[[b["prob"].hex(), list(b["replacements"])] for b in g.base],
+            {k: [[x["prob"].hex(), list(x["values"])] for x in v] for k, v in g.grammar.items()}]
+
+
+def load_history(steps, scratch, rules_dir=None, name=None):
+    """Generator over a recorded history on ONE directory: per step (index, description of the files now, grammar or None,
+    exception or None, the History object - .dir, .load_child(step))."""
+    h = History(scratch, rules_dir, name)
+    for k, st in enumerate(steps):
+        now = h.write(st)
+        try:
+            g, err = h.load(st), None
+        except Exception as e:      # noqa: BLE001 - the loader raises bare Exception
+            g, err = None, e
+        yield k, now, g, err, h
+
+
+def _edit_in_place(rng, rs, folder, kind):
+    """One in-place edit of description [rs] (uuid kept).  Returns (new description, edit_rules config or None) or None if the
+    kind does not apply to this ruleset."""
+    rs = rulesets.to_json(rs)
+    key = "grammar" if folder == "Grammar" else "prince"
+    lines = [list(x) for x in rs[key]]
+    if kind == "drop-base":
+        if len(lines) < 2:
+            return None
+        del lines[rng.randrange(len(lines))]
+        if rng.random() < 0.5:
+            tot = sum(p for _, p in lines)
+            if tot > 0:
+                lines = [[s, p / tot] for s, p in lines]
+        rs[key] = lines
+        return rs, None
+    if kind == "move-markov":
+        # the Markov line of Grammar/grammar.txt appears, disappears or moves (the probabilities keep their places)
+        if folder != "Grammar":
+            return None
+        pos = [i for i, (s, _) in enumerate(lines) if s == "M"]
+        if pos and (len(lines) == 1 or rng.random() < 0.4):
+            if len(lines) == 1:
+                return None
+            del lines[pos[0]]
+        elif pos:
+            j = rng.choice([i for i in range(len(lines)) if i != pos[0]])
+            names = [s for s, _ in lines]
+            names.insert(j, names.pop(pos[0]))
+            lines = [[s, p] for s, (_, p) in zip(names, lines)]
+        else:
+            j = rng.randint(0, len(lines))
+            hi = float(lines[j - 1][1]) if j > 0 else 1.0
+            lo = float(lines[j][1]) if j < len(lines) else 0.0
+            lines.insert(j, ["M", rng.choice([hi, lo, (hi + lo) / 2, 0.5 * lo])])
+        rs[key] = lines
+        return rs, None
+    if kind == "reweight-base":
+        ps = rulesets.gen_probs(rng, len(lines), rng.random() < 0.5)
+        if [p for _, p in lines] == ps:
+            return None
+        rs[key] = [[s, p] for (s, _), p in zip(lines, ps)]
+        return rs, None
+    names = sorted(rs["files"])
+    if kind == "reweight-terminal":
+        import re
+        labels = set()
+        for s, _ in lines:
+            for tok in re.findall(r"[A-Z][0-9]*", s):
+                labels.add(tok)
+                if tok[0] == "A":
+                    labels.add("C" + tok[1:])
+        n = rng.choice([x for x in names if x in labels] or names)
+        old = rs["files"][n]
+        k = rng.randint(1, len(old))
+        ps = rulesets.gen_probs(rng, k, rng.random() < 0.5)
+        # new group boundaries: the values keep their order, the probabilities (hence the groups) change
+        cuts = sorted(rng.sample(range(1, len(old)), k - 1)) if k > 1 else []
+        new, gi = [], 0
+        for i, (v, _) in enumerate(old):
+            while gi < len(cuts) and i >= cuts[gi]:
+                gi += 1
+            new.append([v, ps[gi]])
+        if [float(p) for _, p in old] == [p for _, p in new]:
+            return None
+        rs["files"][n] = new
+        return rs, None
+    if kind == "add-value":
+        pools = {"A": rulesets.WORDS, "D": rulesets.DIGITS, "O": rulesets.OTHER, "K": rulesets.KEYB}
+        cands = []
+        for n in names:
+            if n[0] in pools:
+                extra = [v for v in pools[n[0]].get(int(n[1:]), []) if v not in [x[0] for x in rs["files"][n]]]
+                if extra:
+                    cands.append((n, extra))
+        if not cands:
+            return None
+        n, extra = rng.choice(cands)
+        old = [list(x) for x in rs["files"][n]]
+        pos = rng.randint(0, len(old))
+        # probability of a neighbour (joins its group) or a new value between the neighbours (a new group)
+        hi = float(old[pos - 1][1]) if pos > 0 else 1.0
+        lo = float(old[pos][1]) if pos < len(old) else 0.0
+        p = rng.choice([hi if pos > 0 else lo, lo if pos < len(old) else hi, (hi + lo) / 2])
+        old.insert(pos, [rng.choice(extra), p])
+        rs["files"][n] = old
+        return rs, None
+    if kind == "remove-value":
+        cands = [n for n in names if len(rs["files"][n]) >= 2]
+        if not cands:
+            return None
+        n = rng.choice(cands)
+        old = [list(x) for x in rs["files"][n]]
+        del old[rng.randrange(len(old))]
+        rs["files"][n] = old
+        return rs, None
+    if kind == "edit_rules":
+        if folder != "Grammar" or len(lines) < 2:
+            return None
+        import re
+        r = rng.random()
+        lens = []
+        for s, _ in lines:
+            lens.append(sum(4 if t[0] == "Y" else int(t[1:] or 0) for t in re.findall(r"[A-Z][0-9]*", s) if t[0] in "ADYOKX"))
+        if r < 0.4:
+            cfg = {"max_length": rng.choice(sorted(set(lens)))} if rng.random() < 0.5 else {"min_length": rng.choice(sorted(set(lens)))}
+        elif r < 0.8:
+            letters = sorted(set(t[0] for s, _ in lines for t in re.findall(r"[A-Z][0-9]*", s)))
+            keep = rng.sample(letters, rng.randint(1, max(1, len(letters) - 1))) if len(letters) > 1 else letters
+            cfg = {"terminal_set": keep}
+        else:
+            cfg = {"regex": [rng.choice(["D", "A", "^[AM]", "O|D", "[0-9]$", "^.{2,4}$"])]}
+        return None if not cfg else (rs, cfg)
+    return None
+
+
+class HistoryGen:
+    """Draws the steps of a history ONE AT A TIME (the next step starts from the files as the previous one left them, which for an
+    edit_rules step is only known after the real tool ran):
+    (a) "flags": same files, other flags; (b) in-place edits with the uuid kept (drop-base, reweight-base, move-markov,
+    reweight-terminal, add-value, remove-value, edit_rules = grammar.txt as the real edit_rules.py leaves it), loaded under the flags of an EARLIER
+    load; (c) "retrain": everything replaced, new uuid; "same": nothing changes (a second session on the directory).
+    Steps carry the full description to write, so the list of the steps taken is the replay of a violation."""
+
+    FLAGS = [(False, False, "Grammar"), (True, False, "Grammar"), (False, True, "Grammar"),
+             (True, True, "Grammar"), (False, False, "Prince"), (False, True, "Prince")]
+    KINDS = ["flags"] * 3 + ["drop-base"] * 2 + ["reweight-base", "reweight-terminal", "reweight-terminal", "add-value",
+                                                 "remove-value", "edit_rules", "edit_rules", "retrain", "same", "move-markov"]
+
+    def __init__(self, rng, rs0, flags0, kinds=None, flag_choices=None, fix=None, gen=None):
+        self.rng, self.kinds, self.flag_choices = rng, kinds or self.KINDS, flag_choices or self.FLAGS
+        self.fix = fix or (lambda rs: rs)
+        self.gen = gen or (lambda name: rulesets.gen_ruleset(rng, name=name))
+        self.flags = tuple(flags0)
+        self.seen_flags = [self.flags]
+        self.rs0 = rulesets.to_json(rs0)
+
+    def first(self):
+        sb, scs, folder = self.flags
+        return {"edit": "first", "ruleset": self.rs0, "edit_rules": None, "skip_brute": sb, "skip_case": scs, "folder": folder}
+
+    def next(self, cur):
+        """the next step, given the description [cur] of the files as they are now"""
+        rng = self.rng
+        for _ in range(50):
+            kind = rng.choice(self.kinds)
+            sb, scs, folder = self.flags
+            st = {"edit": kind, "ruleset": None, "edit_rules": None}
+            if kind == "flags":
+                others = [f for f in self.flag_choices if f != self.flags]
+                if not others:
+                    continue
+                sb, scs, folder = rng.choice(others)
+            elif kind == "same":
+                pass
+            elif kind == "retrain":
+                new = self.gen(cur["name"])
+                new["encoding"] = cur["encoding"]
+                st["ruleset"] = rulesets.to_json(self.fix(new))
+            else:
+                # an edit shows under flags that were used before: go back to an earlier flag set half of the time
+                if rng.random() < 0.5:
+                    sb, scs, folder = rng.choice(self.seen_flags)
+                r = _edit_in_place(rng, cur, folder, kind)
+                if r is None:
+                    continue
+                new, cfg = r
+                st["ruleset"], st["edit_rules"] = rulesets.to_json(self.fix(new)), cfg
+            self.flags = (sb, scs, folder)
+            self.seen_flags.append(self.flags)
+            st.update(skip_brute=sb, skip_case=scs, folder=folder)
+            return st
+        sb, scs, folder = self.flags
+        return {"edit": "same", "ruleset": None, "edit_rules": None, "skip_brute": sb, "skip_case": scs, "folder": folder}
